@@ -165,6 +165,16 @@ impl Target {
                 cmd.env(std::ffi::OsStr::from_bytes(k), std::ffi::OsStr::from_bytes(v));
             }
         }
+        // where the initial stack of the main thread ends up depends on the size of the
+        // environment: vary it from target to target, so that every check meets main-thread stack
+        // pointers at all distances from a page boundary (not only the one this machine's
+        // environment happens to produce)
+        {
+            static PAD: std::sync::atomic::AtomicUsize = std::sync::atomic::AtomicUsize::new(0);
+            let k = PAD.fetch_add(1, std::sync::atomic::Ordering::Relaxed);
+            let base: usize = std::env::var("VH_STACK_PAD_BASE").ok().and_then(|s| s.parse().ok()).unwrap_or(0);
+            cmd.env("VH_STACK_PAD", "p".repeat((base + k * 389) % 4099));
+        }
         cmd.stdin(std::process::Stdio::null()).stdout(std::process::Stdio::null());
         let errf = std::fs::File::create(format!("{dir}/stderr")).map_err(|e| e.to_string())?;
         cmd.stderr(errf);
